@@ -214,7 +214,7 @@ fn lattice_cell(fam: Fam, ft: Ft, r: &mut BaseRng) -> Cell {
 }
 
 pub fn run(ctx: &Ctx) {
-    let per_cell: u64 = if ctx.thorough() { 200_000 } else { 8_000 };
+    let per_cell: u64 = if ctx.thorough() { 300_000 } else { 30_000 };
     let k_rand = if ctx.thorough() { 64 } else { 12 };
     let lat = lattice();
     let mut jobs: Vec<(Cell, u64, bool)> = vec![];
